@@ -62,6 +62,11 @@ class Timeout(Exception):
     pass
 
 
+# optional observer (C06): called as EXC_HOOK(fs, op, exception) for EVERY exception a call raises, before the outcome
+# is rendered; None (the default) changes nothing
+EXC_HOOK = None
+
+
 def _alarm(_sig, _frm):
     raise Timeout()
 
@@ -147,6 +152,8 @@ def execute(fs, op):
         except Timeout:
             return "crash:NonTermination"
         except Exception as e:  # noqa
+            if EXC_HOOK is not None:
+                EXC_HOOK(fs, op, e)
             name = exc_name(e)
             if name.startswith("err:"):
                 try:                      # C06: the message can be rendered
